@@ -411,7 +411,7 @@ class TextXVisitor(RRELVisitor):
     def _resolve_rule_refs(self, grammar_parser, model_parser):
         """Resolves parser ParsingExpression crossrefs."""
 
-        def _resolve_rule(rule):
+        def _resolve_rule(rule, alias_chain=()):
             """
             Recursively resolve peg rule references.
 
@@ -431,7 +431,19 @@ class TextXVisitor(RRELVisitor):
                 if rule_name in model_parser.metamodel:
                     rule = model_parser.metamodel[rule_name]._tx_peg_rule
                     if isinstance(rule, RuleCrossRef):
-                        rule = _resolve_rule(rule)
+                        # The body of the referenced rule is itself a single
+                        # rule reference. Following these must come to an
+                        # end, a rule can not be defined by itself.
+                        if rule in alias_chain:
+                            line, col = grammar_parser.pos_to_linecol(rule.position)
+                            raise TextXSemanticError(
+                                f'Rule "{rule_name}" is defined in terms of itself '
+                                f"(circular rule reference) at {(line, col)}.",
+                                line,
+                                col,
+                                filename=model_parser.metamodel.file_name,
+                            )
+                        rule = _resolve_rule(rule, (*alias_chain, rule))
                         model_parser.metamodel[rule_name]._tx_peg_rule = rule
                     if suppress:
                         # Special case. Suppression on rule reference.
